@@ -1,4 +1,4 @@
-import FxVerif.Proofs.C03
+import FxVerif.Proofs.C03Attest
 
 /-!
 # C03 — the executed event is field-for-field the event the quorum voted for
@@ -58,12 +58,44 @@ theorem hash_is_sha256_of_path :
       MsgSendToExternalClaim.hashExpr, MsgBridgeTokenClaim.hashExpr, MsgOracleSetUpdatedClaim.hashExpr]
     = List.replicate 6 expectedHashExpr := by decide
 
+/-- every hashed argument is a field of the message as it is (no normalising or parsing function in between), and
+`ClaimHash` has no statement the translator does not model -/
+theorem hash_arguments_plain :
+    [MsgSendToFxClaim.derivedArgs, MsgBridgeCallClaim.derivedArgs, MsgBridgeCallResultClaim.derivedArgs,
+      MsgSendToExternalClaim.derivedArgs, MsgBridgeTokenClaim.derivedArgs, MsgOracleSetUpdatedClaim.derivedArgs,
+      MsgSendToFxClaim.unmodelledStatements, MsgBridgeCallClaim.unmodelledStatements,
+      MsgBridgeCallResultClaim.unmodelledStatements, MsgSendToExternalClaim.unmodelledStatements,
+      MsgBridgeTokenClaim.unmodelledStatements, MsgOracleSetUpdatedClaim.unmodelledStatements]
+    = List.replicate 12 [] := by decide
+
+/-- every field x/crosschain/keeper reads through a variable of a claim type while executing it (REGENERATED `readFields`:
+selectors and methods on every parameter / type-switch binding of that type, methods followed into the types package) is
+hashed; the only exceptions are the routing field `ChainName` and the relayer `BridgerAddress` -/
+theorem handler_reads_hashed :
+    (∀ f ∈ MsgSendToFxClaim.readFields, f ∈ MsgSendToFxClaim.hashedFields ∨ f ∈ notDemanded)
+    ∧ (∀ f ∈ MsgBridgeCallClaim.readFields, f ∈ MsgBridgeCallClaim.hashedFields ∨ f ∈ notDemanded)
+    ∧ (∀ f ∈ MsgBridgeCallResultClaim.readFields, f ∈ MsgBridgeCallResultClaim.hashedFields ∨ f ∈ notDemanded)
+    ∧ (∀ f ∈ MsgSendToExternalClaim.readFields, f ∈ MsgSendToExternalClaim.hashedFields ∨ f ∈ notDemanded)
+    ∧ (∀ f ∈ MsgBridgeTokenClaim.readFields, f ∈ MsgBridgeTokenClaim.hashedFields ∨ f ∈ notDemanded)
+    ∧ (∀ f ∈ MsgOracleSetUpdatedClaim.readFields, f ∈ MsgOracleSetUpdatedClaim.hashedFields ∨ f ∈ notDemanded) := by
+  decide
+
+/-- what the keeper reads through the interface `types.ExternalClaim` — the event nonce (store key, contiguity, last
+observed nonce) and the block height (`SetLastObservedBlockHeight`, per-oracle height) — is hashed by every type -/
+theorem interface_reads_hashed :
+    ∀ f ∈ externalClaimReads, f ∈ MsgSendToFxClaim.hashedFields ∧ f ∈ MsgBridgeCallClaim.hashedFields
+      ∧ f ∈ MsgBridgeCallResultClaim.hashedFields ∧ f ∈ MsgSendToExternalClaim.hashedFields
+      ∧ f ∈ MsgBridgeTokenClaim.hashedFields ∧ f ∈ MsgOracleSetUpdatedClaim.hashedFields := by decide
+
+/-- the one struct field that is not demanded of the hash, `MsgBridgeTokenClaim.Name`, is indeed never read by the keeper -/
+theorem bridgeToken_name_never_read : "Name" ∉ MsgBridgeTokenClaim.readFields := by decide
+
 /-! ## the six injectivity theorems -/
 
 /-- `MsgSendToFxClaim`: `%d/%d%s/%s/%s/%s/%s` -/
 theorem sendToFx_path_injective (k₁ k₂ : AddrKind) (c₁ c₂ : MsgSendToFxClaim)
     (v₁ : c₁.valid k₁ = true) (v₂ : c₂.valid k₂ = true) (h : c₁.path = c₂.path) : c₁.effect = c₂.effect := by
-  simp only [MsgSendToFxClaim.valid, Bool.and_eq_true] at v₁ v₂
+  simp only [MsgSendToFxClaim.valid, MsgSendToFxClaim.validGen, Bool.and_eq_true] at v₁ v₂
   obtain ⟨⟨⟨⟨⟨⟨⟨_, s₁⟩, t₁⟩, r₁⟩, a₁⟩, _⟩, _⟩, _⟩ := v₁
   obtain ⟨⟨⟨⟨⟨⟨⟨_, s₂⟩, t₂⟩, r₂⟩, a₂⟩, _⟩, _⟩, _⟩ := v₂
   simp only [MsgSendToFxClaim.path, fmt_d_uint64, fmt_s_string, fmt_s_IntString] at h
@@ -82,7 +114,7 @@ theorem sendToFx_path_injective (k₁ k₂ : AddrKind) (c₁ c₂ : MsgSendToFxC
 /-- `MsgBridgeCallClaim`: `%d/%d/%s/%s/%s/%s/%v/%v/%s/%s/%s` (with TxOrigin and Memo) -/
 theorem bridgeCall_path_injective (k₁ k₂ : AddrKind) (c₁ c₂ : MsgBridgeCallClaim)
     (v₁ : c₁.valid k₁ = true) (v₂ : c₂.valid k₂ = true) (h : c₁.path = c₂.path) : c₁.effect = c₂.effect := by
-  simp only [MsgBridgeCallClaim.valid, Bool.and_eq_true] at v₁ v₂
+  simp only [MsgBridgeCallClaim.valid, MsgBridgeCallClaim.validGen, Bool.and_eq_true] at v₁ v₂
   obtain ⟨⟨⟨⟨⟨⟨⟨⟨⟨⟨⟨_, tc₁⟩, _⟩, s₁⟩, to₁⟩, rf₁⟩, _⟩, d₁⟩, _⟩, _⟩, o₁⟩, _⟩ := v₁
   obtain ⟨⟨⟨⟨⟨⟨⟨⟨⟨⟨⟨_, tc₂⟩, _⟩, s₂⟩, to₂⟩, rf₂⟩, _⟩, d₂⟩, _⟩, _⟩, o₂⟩, _⟩ := v₂
   simp only [MsgBridgeCallClaim.path, fmt_d_uint64, fmt_s_string, fmt_v_string, fmt_s_IntString, fmt_s_sliceString,
@@ -108,7 +140,7 @@ theorem bridgeCall_path_injective (k₁ k₂ : AddrKind) (c₁ c₂ : MsgBridgeC
 /-- `MsgBridgeCallResultClaim`: `%d/%d/%d/%t/%s/%s` (with TxOrigin) -/
 theorem bridgeCallResult_path_injective (k₁ k₂ : AddrKind) (c₁ c₂ : MsgBridgeCallResultClaim)
     (v₁ : c₁.valid k₁ = true) (v₂ : c₂.valid k₂ = true) (h : c₁.path = c₂.path) : c₁.effect = c₂.effect := by
-  simp only [MsgBridgeCallResultClaim.valid, Bool.and_eq_true] at v₁ v₂
+  simp only [MsgBridgeCallResultClaim.valid, MsgBridgeCallResultClaim.validGen, Bool.and_eq_true] at v₁ v₂
   obtain ⟨⟨⟨⟨⟨_, _⟩, _⟩, _⟩, _⟩, ca₁⟩ := v₁
   obtain ⟨⟨⟨⟨⟨_, _⟩, _⟩, _⟩, _⟩, ca₂⟩ := v₂
   simp only [MsgBridgeCallResultClaim.path, fmt_d_uint64, fmt_s_string] at h
@@ -127,7 +159,7 @@ theorem bridgeCallResult_path_injective (k₁ k₂ : AddrKind) (c₁ c₂ : MsgB
 /-- `MsgSendToExternalClaim`: `%d/%d/%s/%d/` -/
 theorem sendToExternal_path_injective (k₁ k₂ : AddrKind) (c₁ c₂ : MsgSendToExternalClaim)
     (v₁ : c₁.valid k₁ = true) (v₂ : c₂.valid k₂ = true) (h : c₁.path = c₂.path) : c₁.effect = c₂.effect := by
-  simp only [MsgSendToExternalClaim.valid, Bool.and_eq_true] at v₁ v₂
+  simp only [MsgSendToExternalClaim.valid, MsgSendToExternalClaim.validGen, Bool.and_eq_true] at v₁ v₂
   obtain ⟨⟨⟨⟨_, t₁⟩, _⟩, _⟩, _⟩ := v₁
   obtain ⟨⟨⟨⟨_, t₂⟩, _⟩, _⟩, _⟩ := v₂
   simp only [MsgSendToExternalClaim.path, fmt_d_uint64, fmt_s_string] at h
@@ -144,7 +176,7 @@ theorem sendToExternal_path_injective (k₁ k₂ : AddrKind) (c₁ c₂ : MsgSen
 /-- `MsgBridgeTokenClaim`: `%d/%d%s/%x/%x/%d/%s/` (free-form Name and Symbol hex-encoded) -/
 theorem bridgeToken_path_injective (k₁ k₂ : AddrKind) (c₁ c₂ : MsgBridgeTokenClaim)
     (v₁ : c₁.valid k₁ = true) (v₂ : c₂.valid k₂ = true) (h : c₁.path = c₂.path) : c₁.effect = c₂.effect := by
-  simp only [MsgBridgeTokenClaim.valid, Bool.and_eq_true] at v₁ v₂
+  simp only [MsgBridgeTokenClaim.valid, MsgBridgeTokenClaim.validGen, Bool.and_eq_true] at v₁ v₂
   obtain ⟨⟨⟨⟨⟨⟨⟨⟨_, t₁⟩, ch₁⟩, _⟩, _⟩, _⟩, _⟩, n₁⟩, sy₁⟩ := v₁
   obtain ⟨⟨⟨⟨⟨⟨⟨⟨_, t₂⟩, ch₂⟩, _⟩, _⟩, _⟩, _⟩, n₂⟩, sy₂⟩ := v₂
   simp only [MsgBridgeTokenClaim.path, fmt_d_uint64, fmt_s_string, fmt_x_string] at h
@@ -165,7 +197,7 @@ theorem bridgeToken_path_injective (k₁ k₂ : AddrKind) (c₁ c₂ : MsgBridge
 /-- `MsgOracleSetUpdatedClaim`: `%d/%d/%d/%v/` -/
 theorem oracleSetUpdated_path_injective (k₁ k₂ : AddrKind) (c₁ c₂ : MsgOracleSetUpdatedClaim)
     (v₁ : c₁.valid k₁ = true) (v₂ : c₂.valid k₂ = true) (h : c₁.path = c₂.path) : c₁.effect = c₂.effect := by
-  simp only [MsgOracleSetUpdatedClaim.valid, Bool.and_eq_true] at v₁ v₂
+  simp only [MsgOracleSetUpdatedClaim.valid, MsgOracleSetUpdatedClaim.validGen, Bool.and_eq_true] at v₁ v₂
   obtain ⟨⟨⟨⟨_, _⟩, m₁⟩, _⟩, _⟩ := v₁
   obtain ⟨⟨⟨⟨_, _⟩, m₂⟩, _⟩, _⟩ := v₂
   have m₁ := members_addr m₁
@@ -225,6 +257,147 @@ theorem executed_is_voted_oracleSetUpdated (H : Str → List Nat) (k₁ k₂ : A
     (sameAttestation : H voted.path = H executed.path) : voted.effect = executed.effect :=
   oracleSetUpdated_path_injective k₁ k₂ _ _ v₁ v₂ (collisionFree sameAttestation)
 
+/-! ## the route of a deposit (`SendToFxExecuted`: `fxtypes.ParseFxTarget(claim.TargetIbc, true)`) -/
+
+/-- the routing decision the handler takes — IBC transfer (port, channel, receiver prefix), ERC-20 conversion or plain
+credit, as computed by the model of `ParseFxTarget` that the harness compares with the real function — is the voted one -/
+theorem sendToFx_route_is_voted (k₁ k₂ : AddrKind) (c₁ c₂ : MsgSendToFxClaim)
+    (v₁ : c₁.valid k₁ = true) (v₂ : c₂.valid k₂ = true) (h : c₁.path = c₂.path) :
+    Go.types_ParseFxTarget c₁.TargetIbc true = Go.types_ParseFxTarget c₂.TargetIbc true := by
+  have e := congrArg MsgSendToFxClaim.TargetIbc (sendToFx_path_injective k₁ k₂ c₁ c₂ v₁ v₂ h)
+  simp only [MsgSendToFxClaim.effect] at e
+  rw [e]
+
+/-- why the RAW `TargetIbc` has to be hashed: the rendering `GetTarget()` of the parsed target forgets whether it is an
+IBC route — `px/transfer/channel-0` (an IBC transfer out of fxcore) and the literal `channel-0/px` (coins stay with the
+receiver) render identically -/
+theorem parsed_target_rendering_not_injective :
+    ∃ t₁ t₂ : Str, isHexData t₁ = true ∧ isHexData t₂ = true
+      ∧ (Go.types_ParseFxTarget t₁ true).isIBC ≠ (Go.types_ParseFxTarget t₂ true).isIBC
+      ∧ Go.types_FxTarget_GetTarget (Go.types_ParseFxTarget t₁ true) = Go.types_FxTarget_GetTarget (Go.types_ParseFxTarget t₂ true) :=
+  ⟨Go.hex_EncodeToString "px/transfer/channel-0".toList, Go.hex_EncodeToString "channel-0/px".toList,
+    by decide +kernel, by decide +kernel, by decide +kernel, by decide +kernel⟩
+
+/-! ## claims of every type at once
+
+The attestation store key is `nonce ‖ ClaimHash` whatever the claim's type, and `TryAttestation` hands the crossing
+voter's claim object — of whatever type — to the handler.  So the path must determine the type as well: the paths of two
+valid claims of different types never coincide (different numbers of `/` separators: 5, 10, 5, 4, 6, 4 for send-to-fx,
+bridge-call, bridge-call-result, send-to-external, bridge-token, oracle-set-updated; the two pairs with equal counts are
+told apart by a component that is a number in one and `true`/`false` resp. `[…]` in the other). -/
+
+/-- the generated path determines the claim's type and every effect-relevant field, for all claims of all six types -/
+theorem anyClaim_path_injective (k₁ k₂ : AddrKind) (c₁ c₂ : AnyClaim)
+    (v₁ : c₁.valid k₁ = true) (v₂ : c₂.valid k₂ = true) (h : c₁.path = c₂.path) : c₁.effect = c₂.effect :=
+  match c₁, c₂, v₁, v₂, h with
+  | .stf a, .stf b, v₁, v₂, h => congrArg AnyClaim.stf (sendToFx_path_injective k₁ k₂ a b v₁ v₂ h)
+  | .stf _, .bc _, v₁, v₂, h => absurd h (ne_of_slashes (stf_slashes v₁) (bc_slashes v₂) (by decide))
+  | .stf _, .bcr _, v₁, v₂, h => absurd h (stf_ne_bcr v₁ v₂)
+  | .stf _, .ste _, v₁, v₂, h => absurd h (ne_of_slashes (stf_slashes v₁) (ste_slashes v₂) (by decide))
+  | .stf _, .bt _, v₁, v₂, h => absurd h (ne_of_slashes (stf_slashes v₁) (bt_slashes v₂) (by decide))
+  | .stf _, .osu _, v₁, v₂, h => absurd h (ne_of_slashes (stf_slashes v₁) (osu_slashes v₂) (by decide))
+  | .bc _, .stf _, v₁, v₂, h => absurd h (ne_of_slashes (bc_slashes v₁) (stf_slashes v₂) (by decide))
+  | .bc a, .bc b, v₁, v₂, h => congrArg AnyClaim.bc (bridgeCall_path_injective k₁ k₂ a b v₁ v₂ h)
+  | .bc _, .bcr _, v₁, v₂, h => absurd h (ne_of_slashes (bc_slashes v₁) (bcr_slashes v₂) (by decide))
+  | .bc _, .ste _, v₁, v₂, h => absurd h (ne_of_slashes (bc_slashes v₁) (ste_slashes v₂) (by decide))
+  | .bc _, .bt _, v₁, v₂, h => absurd h (ne_of_slashes (bc_slashes v₁) (bt_slashes v₂) (by decide))
+  | .bc _, .osu _, v₁, v₂, h => absurd h (ne_of_slashes (bc_slashes v₁) (osu_slashes v₂) (by decide))
+  | .bcr _, .stf _, v₁, v₂, h => absurd h.symm (stf_ne_bcr v₂ v₁)
+  | .bcr _, .bc _, v₁, v₂, h => absurd h (ne_of_slashes (bcr_slashes v₁) (bc_slashes v₂) (by decide))
+  | .bcr a, .bcr b, v₁, v₂, h => congrArg AnyClaim.bcr (bridgeCallResult_path_injective k₁ k₂ a b v₁ v₂ h)
+  | .bcr _, .ste _, v₁, v₂, h => absurd h (ne_of_slashes (bcr_slashes v₁) (ste_slashes v₂) (by decide))
+  | .bcr _, .bt _, v₁, v₂, h => absurd h (ne_of_slashes (bcr_slashes v₁) (bt_slashes v₂) (by decide))
+  | .bcr _, .osu _, v₁, v₂, h => absurd h (ne_of_slashes (bcr_slashes v₁) (osu_slashes v₂) (by decide))
+  | .ste _, .stf _, v₁, v₂, h => absurd h (ne_of_slashes (ste_slashes v₁) (stf_slashes v₂) (by decide))
+  | .ste _, .bc _, v₁, v₂, h => absurd h (ne_of_slashes (ste_slashes v₁) (bc_slashes v₂) (by decide))
+  | .ste _, .bcr _, v₁, v₂, h => absurd h (ne_of_slashes (ste_slashes v₁) (bcr_slashes v₂) (by decide))
+  | .ste a, .ste b, v₁, v₂, h => congrArg AnyClaim.ste (sendToExternal_path_injective k₁ k₂ a b v₁ v₂ h)
+  | .ste _, .bt _, v₁, v₂, h => absurd h (ne_of_slashes (ste_slashes v₁) (bt_slashes v₂) (by decide))
+  | .ste _, .osu _, v₁, v₂, h => absurd h (ste_ne_osu v₁ v₂)
+  | .bt _, .stf _, v₁, v₂, h => absurd h (ne_of_slashes (bt_slashes v₁) (stf_slashes v₂) (by decide))
+  | .bt _, .bc _, v₁, v₂, h => absurd h (ne_of_slashes (bt_slashes v₁) (bc_slashes v₂) (by decide))
+  | .bt _, .bcr _, v₁, v₂, h => absurd h (ne_of_slashes (bt_slashes v₁) (bcr_slashes v₂) (by decide))
+  | .bt _, .ste _, v₁, v₂, h => absurd h (ne_of_slashes (bt_slashes v₁) (ste_slashes v₂) (by decide))
+  | .bt a, .bt b, v₁, v₂, h => congrArg AnyClaim.bt (bridgeToken_path_injective k₁ k₂ a b v₁ v₂ h)
+  | .bt _, .osu _, v₁, v₂, h => absurd h (ne_of_slashes (bt_slashes v₁) (osu_slashes v₂) (by decide))
+  | .osu _, .stf _, v₁, v₂, h => absurd h (ne_of_slashes (osu_slashes v₁) (stf_slashes v₂) (by decide))
+  | .osu _, .bc _, v₁, v₂, h => absurd h (ne_of_slashes (osu_slashes v₁) (bc_slashes v₂) (by decide))
+  | .osu _, .bcr _, v₁, v₂, h => absurd h (ne_of_slashes (osu_slashes v₁) (bcr_slashes v₂) (by decide))
+  | .osu _, .ste _, v₁, v₂, h => absurd h.symm (ste_ne_osu v₂ v₁)
+  | .osu _, .bt _, v₁, v₂, h => absurd h (ne_of_slashes (osu_slashes v₁) (bt_slashes v₂) (by decide))
+  | .osu a, .osu b, v₁, v₂, h => congrArg AnyClaim.osu (oracleSetUpdated_path_injective k₁ k₂ a b v₁ v₂ h)
+
+/-! ## `Claim` → `Attest` → `TryAttestation`: the executed event is the voted event, for every history
+
+`run key {} ops` is the attestation state machine of `Model/C03Attest.lean` started from the empty state: any number of
+oracles, any interleaving of votes of any claim types for any nonces, powers / total power / registered addresses /
+nonce cursors changed arbitrarily in between (bonding, slashing, governance, earlier events), handlers that may panic.
+`key c` is the hash part of the store key.  Hypotheses: every submitted claim passed `ValidateBasic` (for a chain of some
+address class — possibly different classes for different claims), and the hash does not collide on the paths of the
+submitted claims (the named assumption; `executed_is_voted_ideal` discharges it for an injective hash). -/
+
+/-- **the property**: whenever the handler runs, the claim object it is given — the threshold-crossing voter's — has the
+same type and the same effect-relevant fields as the claim of EVERY vote tallied in that attestation -/
+theorem executed_is_voted {η : Type} [DecidableEq η] (H : Str → η) (ops : List Op)
+    (valid : ∀ c ∈ Op.claims ops, ∃ k, c.valid k = true)
+    (collisionFree : ∀ c₁ ∈ Op.claims ops, ∀ c₂ ∈ Op.claims ops, H c₁.path = H c₂.path → c₁.path = c₂.path) :
+    ∀ e ∈ (run (fun c => H c.path) {} ops).executed, ∀ v ∈ e.tallied, v.2.effect = e.claim.effect := by
+  intro e he v hv
+  have inv := inv_run (fun c => H c.path) (fun c => c ∈ Op.claims ops) ops {} (inv_init _ _) (fun _ h => h)
+  obtain ⟨pe, hv'⟩ := inv.2 e he
+  obtain ⟨_, hk, pv⟩ := hv' v hv
+  obtain ⟨k₁, v₁⟩ := valid _ pv
+  obtain ⟨k₂, v₂⟩ := valid _ pe
+  exact anyClaim_path_injective k₁ k₂ _ _ v₁ v₂ (collisionFree _ pv _ pe hk)
+
+/-- two claims are tallied together (stored as votes of one attestation) only if they agree on the type and on every
+effect-relevant field; the claim the attestation records (the first voter's) agrees with them too — in every reachable
+state, observed or not -/
+theorem tallied_together_agree {η : Type} [DecidableEq η] (H : Str → η) (ops : List Op)
+    (valid : ∀ c ∈ Op.claims ops, ∃ k, c.valid k = true)
+    (collisionFree : ∀ c₁ ∈ Op.claims ops, ∀ c₂ ∈ Op.claims ops, H c₁.path = H c₂.path → c₁.path = c₂.path) :
+    ∀ a ∈ (run (fun c => H c.path) {} ops).atts, ∀ v ∈ a.votes,
+      v.2.effect = a.claim.effect ∧ ∀ w ∈ a.votes, v.2.effect = w.2.effect := by
+  intro a ha v hv
+  have inv := inv_run (fun c => H c.path) (fun c => c ∈ Op.claims ops) ops {} (inv_init _ _) (fun _ h => h)
+  obtain ⟨⟨_, hc, pc⟩, hvs⟩ := inv.1 a ha
+  obtain ⟨_, hk, pv⟩ := hvs v hv
+  obtain ⟨k₁, v₁⟩ := valid _ pv
+  refine ⟨?_, fun w hw => ?_⟩
+  · obtain ⟨k₂, v₂⟩ := valid _ pc
+    exact anyClaim_path_injective k₁ k₂ _ _ v₁ v₂ (collisionFree _ pv _ pc (hk.trans hc.symm))
+  · obtain ⟨_, hk', pw⟩ := hvs w hw
+    obtain ⟨k₂, v₂⟩ := valid _ pw
+    exact anyClaim_path_injective k₁ k₂ _ _ v₁ v₂ (collisionFree _ pv _ pw (hk.trans hk'.symm))
+
+/-- deferred execution: what `ExecuteClaim` runs (send-to-fx, bridge-call and bridge-call-result claims are stored by
+`SavePendingExecuteClaim` and run later from the stored copy) is a claim object an observed attestation handed to the
+handler, so it has the type and every effect-relevant field of every vote tallied for it — the effect applied on fxcore
+is the one the quorum voted for, whenever and by whomever `ExecuteClaim` is called -/
+theorem ran_is_voted {η : Type} [DecidableEq η] (H : Str → η) (ops : List Op)
+    (valid : ∀ c ∈ Op.claims ops, ∃ k, c.valid k = true)
+    (collisionFree : ∀ c₁ ∈ Op.claims ops, ∀ c₂ ∈ Op.claims ops, H c₁.path = H c₂.path → c₁.path = c₂.path) :
+    ∀ c ∈ (run (fun c => H c.path) {} ops).ran,
+      ∃ e ∈ (run (fun c => H c.path) {} ops).executed, e.claim = c ∧ ∀ v ∈ e.tallied, v.2.effect = c.effect := by
+  intro c hc
+  obtain ⟨e, he, hec⟩ := (pendInv_run (fun c => H c.path) ops {} pendInv_init).2 c hc
+  exact ⟨e, he, hec, fun v hv => hec ▸ executed_is_voted H ops valid collisionFree e he v hv⟩
+
+/-- the stored copy waiting for `ExecuteClaim` under an event nonce is such a claim object, of that nonce -/
+theorem pending_is_voted {η : Type} [DecidableEq η] (H : Str → η) (ops : List Op)
+    (valid : ∀ c ∈ Op.claims ops, ∃ k, c.valid k = true)
+    (collisionFree : ∀ c₁ ∈ Op.claims ops, ∀ c₂ ∈ Op.claims ops, H c₁.path = H c₂.path → c₁.path = c₂.path) :
+    ∀ p ∈ (run (fun c => H c.path) {} ops).pending, p.2.nonce = p.1 ∧
+      ∃ e ∈ (run (fun c => H c.path) {} ops).executed, e.claim = p.2 ∧ ∀ v ∈ e.tallied, v.2.effect = p.2.effect := by
+  intro p hp
+  obtain ⟨hn, e, he, hec⟩ := (pendInv_run (fun c => H c.path) ops {} pendInv_init).1 p hp
+  exact ⟨hn, e, he, hec, fun v hv => hec ▸ executed_is_voted H ops valid collisionFree e he v hv⟩
+
+/-- with an injective hash (the path itself as the key) no assumption is left -/
+theorem executed_is_voted_ideal (ops : List Op) (valid : ∀ c ∈ Op.claims ops, ∃ k, c.valid k = true) :
+    ∀ e ∈ (run (fun c => c.path) {} ops).executed, ∀ v ∈ e.tallied, v.2.effect = e.claim.effect :=
+  executed_is_voted id ops valid (fun _ _ _ _ h => h)
+
 /-! ## the three formats of commit 6774338 are not injective (recorded counterexamples, replayed by the harness) -/
 
 def ethA : Str := "0x0000000000000000000000000000000000000001".toList
@@ -262,6 +435,32 @@ theorem legacy_bridgeToken_not_injective :
       ∧ legacyBridgeTokenPath c₁ = legacyBridgeTokenPath c₂ ∧ c₁.effect ≠ c₂.effect :=
   ⟨wToken, { wToken with Name := "A".toList, Symbol := "FX/FX".toList }, by decide, by decide, by decide, by decide⟩
 
+/-! ## the same state machine with the formats of commit 6774338: the executed event is NOT the voted one -/
+
+/-- store key of the pinned commit, with an ideal (injective) hash: the legacy path -/
+def legacyKey : AnyClaim → Str
+  | .bc c => legacyBridgeCallPath c
+  | .bcr c => legacyBridgeCallResultPath c
+  | .bt c => legacyBridgeTokenPath c
+  | c => c.path
+
+/-- three oracles of power 10 (threshold 66 % of 30 = 19); oracle 0 votes for the bridge call with an empty memo, oracle 1
+for the same call with the send-call-to memo and another origin -/
+def legacyOps : List Op :=
+  [.setPower 0 (some 10), .setPower 1 (some 10), .setPower 2 (some 10), .setTotal 30,
+   .vote 0 (.bc wCall) false, .vote 1 (.bc { wCall with Memo := memoSendCallTo, TxOrigin := ethB }) false]
+
+/-- under the legacy key the second vote is tallied with the first, crosses the threshold, and ITS claim is executed:
+a history in which the executed event differs from a tallied vote (so `executed_is_voted` really depends on what
+`anyClaim_path_injective` says about the generated paths) -/
+theorem legacy_executed_not_voted :
+    (∀ c ∈ Op.claims legacyOps, c.valid .eth = true)
+    ∧ ∃ e ∈ (run legacyKey {} legacyOps).executed, ∃ v ∈ e.tallied, v.2.effect ≠ e.claim.effect :=
+  ⟨by decide +kernel,
+   ⟨{ claim := .bc { wCall with Memo := memoSendCallTo, TxOrigin := ethB },
+      tallied := [(0, .bc wCall), (1, .bc { wCall with Memo := memoSendCallTo, TxOrigin := ethB })] },
+    by decide +kernel, (0, .bc wCall), by decide +kernel, by decide +kernel⟩⟩
+
 /-! ## non-vacuity: the hypotheses are satisfiable, and the generated paths separate the recorded witnesses -/
 
 example : wCall.valid .eth = true ∧ wResult.valid .eth = true ∧ wToken.valid .eth = true := by decide
@@ -275,5 +474,15 @@ example : ({ EventNonce := 7, BlockHeight := 9, OracleSetNonce := 0, Members := 
              ChainName := [] } : MsgOracleSetUpdatedClaim).valid .eth = true := by decide +kernel
 example : ({ EventNonce := 7, BlockHeight := 9, BatchNonce := 3, TokenContract := ethA, BridgerAddress := bech,
              ChainName := [] } : MsgSendToExternalClaim).valid .eth = true := by decide
+
+/-- with the generated paths the same votes land in two attestations, nothing is observed after two votes, and the third
+oracle's vote executes the claim that two oracles voted for -/
+example : (run (fun c => c.path) {} legacyOps).executed = [] := by decide +kernel
+example : ((run (fun c => c.path) {} (legacyOps ++ [.vote 2 (.bc wCall) false])).executed.map (·.tallied.map (·.1))) = [[0, 2]] := by
+  decide +kernel
+/-- … is stored for `ExecuteClaim`, which then runs exactly that claim -/
+example : (run (fun c => c.path) {} (legacyOps ++ [.vote 2 (.bc wCall) false])).pending.map (·.1) = [1] := by decide +kernel
+example : (run (fun c => c.path) {} (legacyOps ++ [.vote 2 (.bc wCall) false, .execute 1 false])).ran = [.bc wCall] := by
+  decide +kernel
 
 end FxVerif.Props.C03
